@@ -151,7 +151,7 @@ def check_seq(ws, case):
                             n_ref, vm_ref = acc, v2
                             break
                     if n_ref is not None and len(before["contexts"]) == 1 and rc in (RES["ok"], RES["empty"]):
-                        shape = lambda v: [(c["frames"], [f["pos"] for f in c["frame_list"]]) for c in v["contexts"]]
+                        shape = lambda v: [(c["frames"], [f["pos"] for f in c["frame_list"]]) for c in v["contexts"] if c["frames"] > 0]   # finished scripts do not count
                         if st["instr"] != n_ref or shape(after) != shape(vm_ref):
                             return viol("leave-scope-overruns-or-stops-early", "leave scope from depth %d executed %d instructions and ended at %r; stepping leaves the scope after %d instructions at %r" % (
                                 d0, st["instr"], shape(after), n_ref, shape(vm_ref)))
@@ -165,6 +165,15 @@ def check_seq(ws, case):
                 if after["state"] == "halted_error" or rc in (RES["invalid"],):
                     return viol("start-on-empty-vm", "start on a VM without scripts returned %d and left state %s" % (rc, after["state"]))
         vm = after
+    # second liveness probe: a script loaded after the history is reached by STEPPING too (the first probe uses start)
+    if "start" not in seq[-1:] and init not in ("erroring", "failed"):
+        st2 = steps[:first + len(seq)] + [{"op": "sqf", "id": 0, "text": 'diag_log "alive2"', "path": "probe2.sqf"}] + [{"op": "exec", "id": 0, "action": "assembly_step"} for _ in range(60)]
+        r3 = ws.call({"mode": "steps", "fork": True, "timeout_ms": 15000, "clock": {"tick_us": 1}, "steps": st2}, variant="fast")
+        if r3["outcome"] == "ok":
+            rcs = [x["r"] for x in r3["result"]["steps"][first + len(seq) + 1:]]
+            if RES["runtime_error"] not in rcs and not any(m["code"] == 60019 and "alive2" in m["msg"] for m in r3["result"]["log"]):
+                return [("C19|seq|liveness-by-stepping|after=%s" % seq[-1], "init %s, actions %r: a script loaded afterwards is never executed by 60 assembly steps (returns %r...)" % (
+                    init, seq, rcs[:4]), None, case)], dict(info, states=len(states))
     probe = res[-1]
     alive = any(m["code"] == 60019 and "alive" in m["msg"] for m in r["result"]["log"])
     if not alive or probe["r"] != RES["empty"]:
